@@ -1,0 +1,52 @@
+//go:build verif
+// +build verif
+
+// Contracts for the deductive verification of the wire command (comment-only file; compiled only
+// with the build tag "verif"; declares nothing).  See /verif/DESIGN.md.
+
+package main
+
+// Ghost state used below (declared in /verif/specs/lib.spec): LOGGED[0] = lines written through
+// package log, STDOUT[0] = fmt.Printf/Println calls, FSWCOUNT[0] / FSWRITTEN[path] / FSCONTENT[path] =
+// calls of ioutil.WriteFile, WRITEERR[0] = failed WriteFile calls.
+
+//@ func logErrors
+//@   modifies LOGGED[0]
+//@   ensures LOGGED[0] >= old(LOGGED[0])
+//@   loop 1 invariant LOGGED[0] >= old(LOGGED[0])
+
+//@ func newGenerateOptions
+//@   modifies nothing
+//@   ensures result.1 == nil ==> result.0 != nil
+
+//@ func packages
+//@   modifies nothing
+
+//@ func (*genCmd).Execute
+//@   ensures [C17,C20] result != 0 ==> LOGGED[0] > old(LOGGED[0])
+//@   lensures [C17] len(errs) == 0 ==> (result == 0 <==> (forall k :: 0 <= k && k < len(outs) ==> len(outs[k].Errs) == 0) && WRITEERR[0] == old(WRITEERR[0]))
+//@   lensures [C17] len(errs) == 0 ==> forall k :: 0 <= k && k < len(outs) ==> (len(outs[k].Content) > 0 ==> FSWRITTEN[outs[k].OutputPath])
+//@   lensures [C17] forall p string :: FSWRITTEN[p] && !old(FSWRITTEN[p]) ==> exists k :: 0 <= k && k < len(outs) && outs[k].OutputPath == p && len(outs[k].Content) > 0
+//@   loop 1 invariant LOGGED[0] >= old(LOGGED[0]) && (!success ==> LOGGED[0] > old(LOGGED[0]))
+//@   loop 1 invariant [C17] success <==> (forall k :: 0 <= k && k < done ==> len(outs[k].Errs) == 0) && WRITEERR[0] == old(WRITEERR[0])
+//@   loop 1 invariant [C17] WRITEERR[0] >= old(WRITEERR[0])
+//@   loop 1 invariant [C17] forall k :: 0 <= k && k < done ==> (len(outs[k].Content) > 0 ==> FSWRITTEN[outs[k].OutputPath])
+//@   loop 1 invariant [C17] forall p string :: FSWRITTEN[p] && !old(FSWRITTEN[p]) ==> exists k :: 0 <= k && k < done && outs[k].OutputPath == p && len(outs[k].Content) > 0
+//@   loop 1 invariant [C17] forall p string :: old(FSWRITTEN[p]) ==> FSWRITTEN[p]
+
+//@ func (*diffCmd).Execute
+//@   ensures [C17] FSWCOUNT[0] == old(FSWCOUNT[0])
+//@   ensures [C17] result == 0 || result == 1 || result == 2
+//@   ensures [C17] result == 1 ==> STDOUT[0] > old(STDOUT[0])
+//@   ensures [C17,C20] result == 2 ==> LOGGED[0] > old(LOGGED[0])
+//@   lensures [C17] (result == 2 <==> !success) && (result == 1 <==> success && hadDiff) && (result == 0 <==> success && !hadDiff)
+//@   loop 1 invariant LOGGED[0] >= old(LOGGED[0]) && STDOUT[0] >= old(STDOUT[0])
+//@   loop 1 invariant [C17] (!success ==> LOGGED[0] > old(LOGGED[0])) && (hadDiff ==> STDOUT[0] > old(STDOUT[0]))
+
+//@ func (*checkCmd).Execute
+//@   ensures [C17] FSWCOUNT[0] == old(FSWCOUNT[0])
+//@   ensures [C17,C20] result != 0 ==> LOGGED[0] > old(LOGGED[0])
+
+//@ func (*showCmd).Execute
+//@   ensures [C17] FSWCOUNT[0] == old(FSWCOUNT[0])
+//@   ensures [C17,C20] result != 0 ==> LOGGED[0] > old(LOGGED[0])
